@@ -308,7 +308,8 @@ def _file_worker(args):
         # identifiers: two programs of three draw declaration and member names also from the lists of character-class shapes
         # (digit→letter, letter→digit, `__`, trailing `_`, single letters, all-capitals words), one keeps the plain lists
         wide = pi % 3 != 2
-        decls = gen_api.ProgGen(r, base_records=True,
+        # every second program: error codes with up to 4 parameters of optional, collection, enum, flags and record types
+        decls = gen_api.ProgGen(r, base_records=True, rich_codes=pi % 2 == 0,
                                 names=gen_api.SAFE_NAMES + gen_api.TYPE_SHAPES if wide else None,
                                 member_names=gen_api.MEMBER_NAMES + gen_api.MEMBER_SHAPES if wide else None).program()
         text = gen_api.render(decls)
